@@ -180,6 +180,11 @@ def float_part(L, rng, n):
             AB = A.copy()
             AB[:3, :3] = B[:3, :3]
             L.log("ctor:tmcopy re-oriented", reg, err(t3.gTM(), AB, s2), TOL, case)
+            # a re-oriented transform is that pose for everything that follows, also for the frame changes (which read the
+            # six-vector, not the matrix)
+            L.log("setQuat then l2g=ref*rel", reg, err(fsr.localToGlobal(t3, c3).gTM(), AB @ C, s2), TOL, case, near_half(AB @ C, AB))
+            L.log("setQuat then g2l=inv(ref)*x", reg, err(fsr.globalToLocal(t3, c3).gTM(), rf.trans_inv(AB) @ C, s2), TOL, case,
+                  near_half(rf.trans_inv(AB) @ C, AB))
             L.log("ctor:tmcopy source keeps its pose", reg, max(err(a.gTM(), A, s2), err((a @ b).gTM(), A @ B, s2),
                                                                err(fsr.localToGlobal(a, b).gTM(), A @ B, s2)), TOL, case, near_half(A @ B))
             # constructor forms from descriptions derived by RefEval
@@ -194,7 +199,8 @@ def float_part(L, rng, n):
                 L.log("ctor:rpy:arr6", reg, err(tm(np.array(list(A[:3, 3]) + list(ang)), rpy=True).gTM(), A, s2), TOL, case)
         for law in ("matmul=matrix product", "inv=group inverse", "assoc", "l2g=ref*rel", "g2l=inv(ref)*x",
                     "g2l(l2g)=id", "ctor:list6", "ctor:list7", "ctor:pair", "ctor:rpy6", "ctor:rpy:pair", "ctor:rpy:arr6", "setQuat(getQuat)", "ctor:tmcopy",
-                    "ctor:arr1tm", "ctor:tmcopy re-oriented", "ctor:tmcopy source keeps its pose"):
+                    "ctor:arr1tm", "ctor:tmcopy re-oriented", "ctor:tmcopy source keeps its pose", "setQuat then l2g=ref*rel",
+                    "setQuat then g2l=inv(ref)*x"):
             L.require(law, reg, n // 2)
 
 
